@@ -152,6 +152,13 @@ fn homogeneous<T: Tier>(rep: &mut Report) {
             eq_m::<T, 4>(ctx, &key("Matrix4/concat=product"), m4(c4), model::mmul(lift_m(m4(t4)), lift_m(m4(n4))));
             let c4g = Transform::<Point3<T>>::concat(&g4, &n4);
             eq_m::<T, 4>(ctx, &key("Matrix4/concat=product"), m4(c4g), model::mmul(lift_m(m4(g4)), lift_m(m4(n4))));
+            // both operands without special structure (no zero entry, bottom row not 0 0 0 1): a generic 4x4 from the slots
+            let gen4 = mk_m4([[e3[0][0], e3[0][1], e3[0][2], sc[0]], [e3[1][0], e3[1][1], e3[1][2], sc[1]], [e3[2][0], e3[2][1], e3[2][2], sc[2]], [tr[0], tr[1], tr[2], pt[0]]]);
+            let gen4b = mk_m4([[vc[0], pt[1], tr[2], e3[2][0]], [pt[2], vc[1], e3[0][1], tr[0]], [sc[1], e3[1][2], vc[2], pt[0]], [e3[2][2], sc[2], tr[1], e3[1][0]]]);
+            eq_m::<T, 4>(ctx, &key("Matrix4/concat=product"), m4(Transform::<Point3<T>>::concat(&gen4, &gen4b)), model::mmul(lift_m(m4(gen4)), lift_m(m4(gen4b))));
+            let gen3b = mk_m3([[vc[0], pt[1], tr[2]], [pt[2], vc[1], sc[0]], [sc[1], tr[0], vc[2]]]);
+            eq_m::<T, 3>(ctx, &key("Matrix3<P3>/concat=product"), m3(Transform::<Point3<T>>::concat(&a3, &gen3b)), model::mmul(m3e, lift_m(m3(gen3b))));
+            eq_m::<T, 3>(ctx, &key("Matrix3<P2>/concat=product"), m3(Transform::<Point2<T>>::concat(&a3, &gen3b)), model::mmul(m3e, lift_m(m3(gen3b))));
             // Matrix3 as a transform of 3-space: concat is the matrix product, in this order
             let a3t = a3.transpose();
             let c33 = Transform::<Point3<T>>::concat(&a3, &a3t);
@@ -316,6 +323,48 @@ fn generic<T: Tier, M: MatN<T, N>, const N: usize>(rep: &mut Report) {
     );
 }
 
+/// magnitudes and non-dyadic entries: (2^-k A)(2^k B) = AB, 2^-k A + 2^-k B = 2^-k (A + B), (2^-k A) v = 2^-k (A v) hold
+/// bit for bit (scaling by a power of two is exact), so a short cut keyed on "this operand is numerically zero /
+/// diagonal / the identity" shows at one end of the ladder; entries with denominators 3, 7, 9, 11, 13 make every
+/// float operation round, so a detour through another number type shows
+fn magnitudes<T: Tier, M: MatN<T, N>, const N: usize>(rep: &mut Report) {
+    let ks: Vec<i64> = if T::EXACT { vec![0, 6] } else if T::NAME == "F" { vec![0, 12, 24] } else { vec![0, 24, 40, 60] };
+    let nb = 3;
+    rep.cases(
+        &format!("magnitudes/{}", M::NAME),
+        T::NAME,
+        &format!("3 bases (A,B,v) with non-dyadic entries x scalings 2^-k / 2^k, k in {:?}", ks),
+        nb * ks.len(),
+        Guard::states(3).distinct(3),
+        |i, ctx| {
+            let (bi, k) = (i / ks.len(), ks[i % ks.len()]);
+            let dens: [i64; 5] = [3, 7, 9, 11, 13];
+            let r: Vec<R> = alphabet::generic(2 * N * N + N, bi).iter().enumerate().map(|(j, q)| (q.0, q.1 * dens[(j + bi) % 5])).collect();
+            let a: [[T; N]; N] = mat_from_r(&r[..N * N]);
+            let b: [[T; N]; N] = mat_from_r(&r[N * N..2 * N * N]);
+            let v: [T; N] = vec_from_r(&r[2 * N * N..]);
+            let (dn, up): (T, T) = (T::q(1, 1i64 << k), T::q(1i64 << k, 1));
+            ctx.describe(|| format!("A={:?} B={:?} v={:?} scaled by 2^-{k} / 2^{k}", a, b, v));
+            ctx.out(&(bi, k));
+            let (ma, mb, mv) = (lift_m(a), lift_m(b), lift_v(v));
+            let (ca, cb, cv) = (M::mk(a), M::mk(b), M::V::mk(v));
+            // against the model (every operation rounds: tolerance)
+            eq_m::<T, N>(ctx, &key("mul_matrix/non-dyadic"), (ca * cb).arr(), model::mmul(ma, mb));
+            eq_v::<T, N>(ctx, &key("mul_vector/non-dyadic"), (ca * cv).arr(), model::mvec(ma, mv));
+            eq_m::<T, N>(ctx, &key("add/non-dyadic"), (ca + cb).arr(), model::madd(ma, mb));
+            // scaled operands: the same numbers, bit for bit
+            let (sa, sb, ua) = (M::mk(a.map(|c| c.map(|x| x * dn))), M::mk(b.map(|c| c.map(|x| x * up))), M::mk(b.map(|c| c.map(|x| x * dn))));
+            same_slice(ctx, &key("mul_matrix/scaling"), &flat_m((sa * sb).arr()), &flat_m((ca * cb).arr()));
+            same_slice(ctx, &key("mul_matrix/scaling"), &flat_m((sb * sa).arr()), &flat_m((cb * ca).arr()));
+            same_slice(ctx, &key("add/scaling"), &flat_m((sa + ua).arr()), &flat_m((ca + cb).arr().map(|c| c.map(|x| x * dn))));
+            same_slice(ctx, &key("sub/scaling"), &flat_m((sa - ua).arr()), &flat_m((ca - cb).arr().map(|c| c.map(|x| x * dn))));
+            same_slice(ctx, &key("mul_vector/scaling"), &(sa * cv).arr(), &(ca * cv).arr().map(|x| x * dn));
+            same_slice(ctx, &key("mul_scalar/scaling"), &flat_m((sa * up).arr()), &flat_m(a));
+            same_slice(ctx, &key("transpose/scaling"), &flat_m(sa.transpose().arr()), &flat_m(ca.transpose().arr().map(|c| c.map(|x| x * dn))));
+        },
+    );
+}
+
 /// ring: BFS over chains of ring operations; ring laws evaluated on every reached state
 fn ring<T: Tier, M: MatN<T, N>, const N: usize>(rep: &mut Report) {
     let depth = rep.pick(2, 3);
@@ -472,6 +521,9 @@ fn all<T: Tier>(rep: &mut Report) {
     generic::<T, Matrix2<T>, 2>(rep);
     generic::<T, Matrix3<T>, 3>(rep);
     generic::<T, Matrix4<T>, 4>(rep);
+    magnitudes::<T, Matrix2<T>, 2>(rep);
+    magnitudes::<T, Matrix3<T>, 3>(rep);
+    magnitudes::<T, Matrix4<T>, 4>(rep);
     ring::<T, Matrix2<T>, 2>(rep);
     ring::<T, Matrix3<T>, 3>(rep);
     ring::<T, Matrix4<T>, 4>(rep);
